@@ -105,8 +105,11 @@ def genCallerAF (maxPriv : Nat) : Gen PacketAdaptationField := do
   let sc ← randField 8
   let espi ← randBool
   let di ← chance 1 6
+  -- the redundant TransportPrivateDataLength sometimes contradicts the data (0, short, long): the data decide
+  let stale ← chance 1 4
+  let plen ← (if stale && hasPriv then pick [0, 1, priv.length + 1, 255] else pure priv.length : Gen Nat)
   return { discontinuityIndicator := di, pcr := if hasPCR then some pcr else none, hasPCR := hasPCR, randomAccessIndicator := rai, hasTransportPrivateData := hasPriv,
-           transportPrivateData := priv, transportPrivateDataLength := priv.length, hasSplicingCountdown := hasSplice,
+           transportPrivateData := priv, transportPrivateDataLength := plen, hasSplicingCountdown := hasSplice,
            spliceCountdown := if hasSplice then sc else 0, elementaryStreamPriorityIndicator := espi }
 
 /-- payload lengths around the packing boundaries -/
